@@ -39,7 +39,10 @@ impl Op {
 #[derive(Clone, Debug)]
 pub struct Scenario { pub prog: Program, pub n_inputs: u32, pub n_ext: u32, pub ops: Vec<Op> }
 
-pub struct GenCfg { pub max_nodes: u32, pub max_ops: u32, pub allow_fw: bool, pub allow_proj: bool, pub allow_ext: bool, pub allow_group: bool, pub restarts: bool, pub cyclic: bool }
+pub struct GenCfg { pub max_nodes: u32, pub max_ops: u32, pub allow_fw: bool, pub allow_proj: bool, pub allow_ext: bool, pub allow_group: bool, pub restarts: bool, pub cyclic: bool,
+    /// firewalls read no firewall or projection (directly or through normal queries) and projections read firewalls only:
+    /// the parallel repair tasks of one request then cannot meet, and executions / bookkeeping are a function of the history
+    pub layered: bool }
 
 fn gen_expr(r: &mut Rng, leaves: &[Node], depth: u32, allow_group: bool) -> Expr {
     if leaves.is_empty() { return Expr::Const(r.below(5) as i64); }
@@ -81,6 +84,7 @@ pub fn gen_scenario(r: &mut Rng, c: &GenCfg) -> Scenario {
     let mut avail: Vec<Node> = (0..n_inputs).map(|i| Node { kind: Kind::Input, idx: i }).collect();
     avail.extend((0..n_ext).map(|i| Node { kind: Kind::External, idx: i }));
     let mut counters = [0u32; 5];
+    let mut tainted: std::collections::HashSet<Node> = std::collections::HashSet::new();
     // cyclic programs: decide all node names first so that a body may read any of them
     let mut planned: Vec<Node> = Vec::new();
     if c.cyclic {
@@ -106,8 +110,9 @@ pub fn gen_scenario(r: &mut Rng, c: &GenCfg) -> Scenario {
             fwprj.extend(later.iter().copied().filter(|n| matches!(n.kind, Kind::Firewall | Kind::Projection)));
             if r.chance(1, 2) { for n in later.iter().take(2) { avail.push(*n); } }
         }
-        let leaves: Vec<Node> = if kind == Kind::Projection { fwprj } else {
+        let leaves: Vec<Node> = if kind == Kind::Projection { if c.layered { fwprj.iter().copied().filter(|n| n.kind == Kind::Firewall).collect() } else { fwprj } } else {
             // bias towards recent nodes so that chains form, keep inputs reachable
+            let avail: Vec<Node> = if c.layered && kind == Kind::Firewall { avail.iter().copied().filter(|n| !tainted.contains(n)).collect() } else { avail.clone() };
             let mut l = avail.clone();
             let recent: Vec<Node> = avail.iter().rev().take(4).copied().collect();
             l.extend(recent.iter().copied()); l.extend(recent);
@@ -117,6 +122,7 @@ pub fn gen_scenario(r: &mut Rng, c: &GenCfg) -> Scenario {
         // modulus 1 (value always 0) makes queries that re-execute without ever changing: early cut-off
         let m = *r.pick(&[2i64, 3, 5, 10, 100, 2, 3, 1]);
         let n = Node { kind, idx };
+        { let mut v = Vec::new(); body.may_read(&mut v); if kind != Kind::Normal || v.iter().any(|d| tainted.contains(d)) { tainted.insert(n); } }
         prog.exprs.insert(n, Expr::Mod(Box::new(body), m));
         if c.cyclic { avail.retain(|x| planned.contains(x) == false || prog.exprs.contains_key(x)); }
         if !avail.contains(&n) { avail.push(n); }
